@@ -681,8 +681,119 @@ impl<C: Suite> Model for M16L<C> {
     }
 }
 
+// ---- one bad payload inside a large share set ---------------------------------------------------------------
+
+#[derive(Copy, Clone, Debug, PartialEq, Eq, Hash, Serialize, Deserialize)]
+pub struct BSt {
+    /// 0 SignatureShare, 1 PublicKeyShare, 2 SignDecryptionShare, 3 ElGamalDecryptionShare, 4 trait combine signature shares,
+    /// 5 trait combine public key shares
+    kind: u8,
+    n: usize,
+    /// position of the payload that is not a subgroup point (from the end when `from_end`)
+    pos: usize,
+    from_end: bool,
+}
+
+pub struct M16Big<C: Suite> {
+    _c: std::marker::PhantomData<C>,
+}
+
+impl<C: Suite> Model for M16Big<C> {
+    type State = Option<BSt>;
+    type Action = BSt;
+    fn name(&self) -> String {
+        format!("c16-bad-payload-in-a-large-share-set/{}", C::G)
+    }
+    fn init(&self) -> Vec<Option<BSt>> {
+        vec![None]
+    }
+    fn actions(&self, st: &Option<BSt>) -> Vec<BSt> {
+        if st.is_some() {
+            return vec![];
+        }
+        let mut v = vec![];
+        for kind in 0..6u8 {
+            // sizes around the block sizes of batched / parallel validation (4, 8, 64, 128) and the identifier limit
+            for n in [5usize, 9, 64, 65, 128, 131, 255] {
+                for (pos, from_end) in [(0usize, false), (1, false), (n / 2, false), (2, true), (1, true), (0, true)] {
+                    v.push(BSt { kind, n, pos, from_end });
+                }
+            }
+        }
+        v
+    }
+    fn step(&self, _s: &Option<BSt>, a: &BSt) -> Option<Option<BSt>> {
+        Some(Some(*a))
+    }
+    fn describe(&self, st: &Option<BSt>) -> String {
+        format!("{} recombination of a share set with one payload outside the subgroup: {:?}", C::G, st)
+    }
+    fn required_outcomes(&self) -> Vec<String> {
+        vec!["large-set:bad-payload-is-error".into()]
+    }
+    fn check(&self, st: &Option<BSt>, o: &mut Obs) {
+        use blsful::vsss_rs::Share;
+        use rand_core::SeedableRng;
+        let Some(st) = st else { return };
+        o.nontrivial = true;
+        let g = C::G;
+        let sk = SecretKey::<C>::from_hash(b"c16 large share set");
+        let pk = sk.public_key();
+        let msg = b"c16 message".to_vec();
+        let shares = sk.split_with_rng(2, st.n, rand_chacha::ChaCha20Rng::from_seed([17u8; 32])).expect("split");
+        let at = if st.from_end { st.n - 1 - st.pos } else { st.pos };
+        let bad = |payload: Vec<u8>| rf::torsion_perturbed(&payload).expect("a point outside the subgroup");
+        let sc = pk.sign_crypt(SignatureSchemes::Basic, &msg);
+        let eg = pk.encrypt_key_el_gamal(&sk).expect("elgamal");
+        let r: Result<Result<(), String>, String> = guard(|| match st.kind {
+            0 | 4 => {
+                let mut parts: Vec<SignatureShare<C>> = shares.iter().map(|s| s.sign(SignatureSchemes::Basic, &msg).unwrap()).collect();
+                let raw = *parts[at].as_raw_value();
+                parts[at] = SignatureShare::Basic(raw_sig_share::<C>(raw.identifier(), &bad(raw.value_vec())));
+                if st.kind == 4 {
+                    let raws: Vec<_> = parts.iter().map(|p| *p.as_raw_value()).collect();
+                    <C as BlsSignatureCore>::core_combine_signature_shares(&raws).map(|_| ()).map_err(|e| e.to_string())
+                } else {
+                    Signature::<C>::from_shares(&parts).map(|_| ()).map_err(|e| e.to_string())
+                }
+            }
+            1 | 5 => {
+                let mut parts: Vec<PublicKeyShare<C>> = shares.iter().map(|s| s.public_key().unwrap()).collect();
+                parts[at] = PublicKeyShare(raw_pk_share::<C>(parts[at].0.identifier(), &bad(parts[at].0.value_vec())));
+                if st.kind == 5 {
+                    let raws: Vec<_> = parts.iter().map(|p| p.0).collect();
+                    <C as BlsSignatureCore>::core_combine_public_key_shares(&raws).map(|_| ()).map_err(|e| e.to_string())
+                } else {
+                    PublicKey::<C>::from_shares(&parts).map(|_| ()).map_err(|e| e.to_string())
+                }
+            }
+            2 => {
+                let mut parts: Vec<SignDecryptionShare<C>> = shares.iter().map(|s| sc.create_decryption_share(s).unwrap()).collect();
+                parts[at] = SignDecryptionShare(raw_pk_share::<C>(parts[at].0.identifier(), &bad(parts[at].0.value_vec())));
+                SignCryptDecryptionKey::<C>::from_shares(&parts).map(|_| ()).map_err(|e| e.to_string())
+            }
+            _ => {
+                let mut parts: Vec<ElGamalDecryptionShare<C>> = shares.iter().map(|s| ElGamalDecryptionShare(<C as BlsSignatureCore>::public_key_share_with_generator(&s.0, eg.c1).unwrap())).collect();
+                parts[at] = ElGamalDecryptionShare(raw_pk_share::<C>(parts[at].0.identifier(), &bad(parts[at].0.value_vec())));
+                ElGamalDecryptionKey::<C>::from_shares(&parts).map(|_| ()).map_err(|e| e.to_string())
+            }
+        });
+        o.calls(1);
+        let key = format!("C16:bad-payload-in-a-large-share-set:{}:kind{}:n{}:{}", g, st.kind, if st.n >= 128 { ">=128" } else if st.n >= 64 { ">=64" } else { "<64" }, if st.from_end { "tail" } else { "head" });
+        match r {
+            Err(p) => o.expect(&format!("{}:panic", key), false, "returns", &p),
+            Ok(r) => {
+                o.outcome(if r.is_err() { "large-set:bad-payload-is-error" } else { "large-set:bad-payload-recombines" });
+                o.expect(&key, r.is_err(), "Err (a payload is not a subgroup point)", "Ok");
+            }
+        }
+    }
+}
+
 pub fn models(tier: Tier, seed: u64) -> Vec<Box<dyn DynModel>> {
     vec![
+        bounded(M16Big::<Bls12381G1Impl> { _c: std::marker::PhantomData }, 1),
+        bounded(M16Big::<Bls12381G2Impl> { _c: std::marker::PhantomData }, 1),
         bounded(M16::new(tier, seed), 1),
         bounded(M16L::<Bls12381G1Impl> { _c: std::marker::PhantomData }, 1),
         bounded(M16L::<Bls12381G2Impl> { _c: std::marker::PhantomData }, 1),
